@@ -36,6 +36,8 @@ type c08StepIn struct {
 	Kind string `json:"kind"` // "pfd" | "pdr"
 	// pfd
 	Apps []c08AppIn `json:"apps"`
+	// Direct: hand the message to the handler as built, without the Marshal/Parse round trip
+	Direct bool `json:"direct"`
 	// pdr
 	Iface int         `json:"iface"` // PFCP Source Interface value (0 access, 1 core, 2 SGi-LAN, ...)
 	UE    *uint32     `json:"ue"`    // nil: no UE IP Address IE
@@ -45,6 +47,9 @@ type c08StepIn struct {
 type c08AppIn struct {
 	ID   *string        `json:"id"`   // nil: no Application ID IE
 	Ctxs [][]c08ChildIn `json:"ctxs"` // PFD Context IEs in order, each a list of children
+	// BadCtxAt: position (among the contexts) at which a PFD Context IE with an undecodable payload
+	// is inserted (only meaningful with Direct: such a message does not survive message.Parse)
+	BadCtxAt *int `json:"bad_ctx_at"`
 }
 
 type c08ChildIn struct {
@@ -230,7 +235,14 @@ func c08PfdStep(pConn *PFCPConn, st c08StepIn, seq uint32) (res map[string]any) 
 		if a.ID != nil {
 			ch = append(ch, ie.NewApplicationID(*a.ID))
 		}
-		for _, ctx := range a.Ctxs {
+		// a PFD Context IE (type 59, length 3) whose payload is a truncated IE header; go-pfcp
+		// marshals grouped IEs from their children, so it is spliced into the raw payload below
+		badCtx := []byte{0x00, 0x3b, 0x00, 0x03, 0x00, 0x3b, 0x00}
+		badPos := -1
+		for n, ctx := range a.Ctxs {
+			if a.BadCtxAt != nil && *a.BadCtxAt == n {
+				badPos = len(ch)
+			}
 			var cc []*ie.IE
 			for _, c := range ctx {
 				if c.Bad {
@@ -245,23 +257,52 @@ func c08PfdStep(pConn *PFCPConn, st c08StepIn, seq uint32) (res map[string]any) 
 			}
 			ch = append(ch, ie.NewPFDContext(cc...))
 		}
-		ies = append(ies, ie.NewApplicationIDsPFDs(ch...))
+		if a.BadCtxAt != nil && badPos < 0 {
+			badPos = len(ch)
+		}
+		if badPos < 0 {
+			ies = append(ies, ie.NewApplicationIDsPFDs(ch...))
+			continue
+		}
+		var raw []byte
+		for n, c := range ch {
+			if n == badPos {
+				raw = append(raw, badCtx...)
+			}
+			b, err := c.Marshal()
+			if err != nil {
+				return map[string]any{"kind": "pfd", "harness_skip": "marshal child: " + err.Error()}
+			}
+			raw = append(raw, b...)
+		}
+		if badPos >= len(ch) {
+			raw = append(raw, badCtx...)
+		}
+		ies = append(ies, &ie.IE{Type: ie.ApplicationIDsPFDs, Length: uint16(len(raw)), Payload: raw})
 	}
-	req := message.NewPFDManagementRequest(seq, ies...)
-	b, err := req.Marshal()
-	if err != nil {
-		return map[string]any{"kind": "pfd", "harness_skip": "marshal: " + err.Error()}
+	var msg message.Message
+	var preq *message.PFDManagementRequest
+	if st.Direct {
+		preq = message.NewPFDManagementRequest(seq, ies...)
+		msg = preq
+	} else {
+		req := message.NewPFDManagementRequest(seq, ies...)
+		b, err := req.Marshal()
+		if err != nil {
+			return map[string]any{"kind": "pfd", "harness_skip": "marshal: " + err.Error()}
+		}
+		m, err := message.Parse(b)
+		if err != nil {
+			return map[string]any{"kind": "pfd", "harness_skip": "parse: " + err.Error()}
+		}
+		var ok bool
+		preq, ok = m.(*message.PFDManagementRequest)
+		if !ok {
+			return map[string]any{"kind": "pfd", "harness_skip": "not a PFD management request"}
+		}
+		msg = m
 	}
-	msg, err := message.Parse(b)
-	if err != nil {
-		return map[string]any{"kind": "pfd", "harness_skip": "parse: " + err.Error()}
-	}
-	preq, ok := msg.(*message.PFDManagementRequest)
-	if !ok {
-		return map[string]any{"kind": "pfd", "harness_skip": "not a PFD management request"}
-	}
-	// abstract tree: what the accessors used by the handler return for each Application ID's PFDs IE,
-	// plus every PFD Context (the handler's accessor only ever returns the first one)
+	// abstract tree: what the accessors used by the handler return for each Application ID's PFDs IE
 	abs := []any{}
 	for _, a := range preq.ApplicationIDsPFDs {
 		e := map[string]any{}
@@ -281,20 +322,21 @@ func c08PfdStep(pConn *PFCPConn, st c08StepIn, seq uint32) (res map[string]any) 
 			}
 			return l
 		}
-		if first, err := a.PFDContext(); err == nil {
-			e["first"] = rd(first)
-		} else {
-			e["first"] = nil
-		}
+		// every PFD Context child in order: its children's outcomes, or nil when the context itself
+		// cannot be read; "unreadable" when the children of the IE cannot be listed at all
 		all := []any{}
 		if kids, err := a.ApplicationIDsPFDs(); err == nil {
 			for _, k := range kids {
 				if k.Type == ie.PFDContext {
 					if cs, err := k.PFDContext(); err == nil {
 						all = append(all, rd(cs))
+					} else {
+						all = append(all, nil)
 					}
 				}
 			}
+		} else {
+			e["unreadable"] = true
 		}
 		e["ctxs"] = all
 		abs = append(abs, e)
